@@ -173,6 +173,7 @@ class C17(Check):
     # -- setup ----------------------------------------------------------------
     def prepare(self):
         from .. import harness  # noqa: F401  (imports the middleware with the shim in place)
+        opstub.init_session("c17")
         import admin.signer_authorization as SA
         import admin.misc
         import admin.dongle_eth
